@@ -34,7 +34,8 @@ STUBS = [
     "timelines, phases, registers and devices are concrete per shape; every amplitude, detuning and detuning-map weight is a solver variable "
     "(amplitudes in [0,10], detunings in [-20,20], weights in [0,1])",
     "EOM shapes: Waveform.modulation_buffers replaced by the fixed value (rise_time//2, rise_time//2) so that the timeline stays concrete",
-    "default (noiseless) configuration; sampling_rate 1 (every integer time) and 0.7 / 0.5 / 0.31 (the times of the emulator's own grid)",
+    "configurations: default; SPAM noise then reset_config(); dephasing (collapse operators do not enter H); the noiseless=True view. "
+    "The state-preparation draw is a stub (first atom bad), also in replays; sampling_rate 1 (every integer time) and 0.7 / 0.5 / 0.31 (the times of the emulator's own grid)",
 ]
 FLOAT_MODE = ("R-mode exact reals for amplitudes/detunings/weights; concrete binary64 for e^{-i phi} and interaction strengths, compared "
               "within 1e-6 absolute (+1e-9 relative on interaction strengths)")
@@ -155,7 +156,29 @@ class QutipProxy:
     QobjEvo = SymEvo
 
 
+class _FixedRandom:
+    """Environment stub for the state-preparation draw (np.random.uniform in Hamiltonian._update_noise): the first atom of
+    the register comes out badly prepared, the others fine. Kept in concrete replays, so that they are deterministic."""
+
+    def uniform(self, *a, size=None, **k):
+        out = np.full(size, 0.99)
+        out[0] = 0.0
+        return out
+
+    def __getattr__(self, n):
+        return getattr(np.random, n)
+
+
+class _ConcreteNP:
+    random = _FixedRandom()
+
+    def __getattr__(self, n):
+        return getattr(np, n)
+
+
 class HamFacade(facade.NPFacade):
+    random = _FixedRandom()
+
     def exp(self, a, **kw):
         if any(is_sym_c(core._np_item(x)) for x in np.asarray(a, dtype=object).flat):
             raise core.Realise("np.exp of a symbolic phase")
@@ -190,6 +213,9 @@ def setup_concrete():
 
     stubs.init()
     wf.Waveform.modulation_buffers = fixed_buffers
+    import pulser_simulation.hamiltonian as hm
+
+    hm.np = _ConcreteNP()
 
 
 # --------------------------------------------------------------------------
@@ -305,6 +331,18 @@ PROGRAMS = {
         ["add_eom", "g", 12, 0.29],
         ["disable_eom", "g"],
         ["add", "l", ["cp", 5, A("a1"), D("d1"), 0.66], "no-delay"]]),
+    # two local channels drive two atoms at the same time with the SAME envelope (same amplitude / detuning variables)
+    # but different phases
+    "two_local_same_env": dict(device="mock", reg="tri3", prog=[
+        ["declare", "l0", "rydberg_local", "q0"], ["declare", "l1", "rydberg_local", "q1"], ["declare", "l2", "rydberg_local", "q2"],
+        # (l0 and l1 with the same CONCRETE numbers: code that compares raw sample buffers only sees equal buffers then)
+        ["add", "l0", ["cp", 8, 1.0, 0.5, 0.3]],
+        ["add", "l1", ["cp", 8, 1.0, 0.5, 1.7], "no-delay"],
+        ["add", "l2", ["cp", 8, A("a0"), D("d0"), 2.9], "no-delay"],
+        ["add", "l2", ["cp", 6, A("a1"), D("d1"), 1.1]]]),
+    # nothing but idle time: no basis is "used", the emulator falls back to the ground-rydberg pair
+    "idle": dict(device="mock", reg="line2", prog=[
+        ["declare", "g", "rydberg_global"], ["delay", "g", 12]]),
     "phase_shift": dict(device="mock", reg="line2", prog=[
         ["declare", "g", "rydberg_global"], ["declare", "r", "raman_local", "q0"],
         ["add", "g", ["cp", 6, A("a0"), D("d0"), 0.4]],
@@ -317,7 +355,7 @@ PROGRAMS = {
         ["target", "l", ["q0", "q1"]],
         ["add", "l", ["pulse", ["custom", [A0("c0"), A0("c1"), A0("c2"), A0("c3")]], ["const", 4, D("d2")], 3.9]]]),
 }
-QUICK = ["ising_all", "digital", "perm", "dmm", "dmm_first", "slm_ising", "xy_slm", "two_glob", "glob_then_local", "eom"]
+QUICK = ["idle", "two_local_same_env", "ising_all", "digital", "perm", "dmm", "dmm_first", "slm_ising", "xy_slm", "two_glob", "glob_then_local", "eom"]
 
 BASIS_AB = {"ground-rydberg": ("r", "g"), "digital": ("g", "h"), "XY": ("u", "d")}  # (|b>, |a>): |b> = (1,0), |a> = (0,1)
 
@@ -547,7 +585,28 @@ def h_program(shape):
             seq.set_magnetic_field(*P["mag"])
         l2.run_prefix(inp, seq, P["prog"])
         rate = shape.get("rate", 1.0)
+        if shape.get("reconfig") == "leakage_before":
+            # an EARLIER emulator of the same sequence, configured with a leakage state: emulators are independent objects,
+            # the one built afterwards with the default configuration has the documented states only
+            import qutip
+            from pulser_simulation import SimConfig
+
+            QutipEmulator.from_sequence(seq, config=SimConfig(noise=("leakage", "eff_noise"), eff_noise_rates=[0.1],
+                                                                eff_noise_opers=[qutip.Qobj(np.diag([1.0, 0.0, 0.0]))]))
         em = QutipEmulator.from_sequence(seq, sampling_rate=rate)
+        if shape.get("reconfig") == "spam_then_reset":
+            # a noisy configuration (one atom badly prepared, see _FixedRandom) and back: the default configuration's
+            # Hamiltonian is the documented one again, whatever was configured in between
+            from pulser_simulation import SimConfig
+
+            em.set_config(SimConfig(noise="SPAM", eta=0.5, runs=1, samples_per_run=1))
+            em.reset_config()
+        elif shape.get("reconfig") == "dephasing":
+            from pulser_simulation import SimConfig
+
+            em.set_config(SimConfig(noise="dephasing"))
+        elif shape.get("reconfig") == "noiseless_view":
+            pass
         orc = Oracle(seq)
         used = orc.used_bases()
         eig = orc.eigen(used)
@@ -584,7 +643,7 @@ def h_program(shape):
         for t in times:
             if t >= orc.T:
                 continue
-            code = entries_of(em.get_hamiltonian(t))
+            code = entries_of(em.get_hamiltonian(t, noiseless=True) if shape.get("reconfig") == "noiseless_view" else em.get_hamiltonian(t))
             okey = (id(code) if isinstance(em._hamiltonian._hamiltonian, SymEvo) else t, orc.key(t))
             if okey in seen and t not in resid:
                 # same matrix, same reference as at an earlier time: the obligations would be the very same terms
@@ -621,7 +680,13 @@ def kernels(tier):
     ks = [("ham", dict(program=n)) for n in names]
     # the Hamiltonian on a coarser grid: at every time of the emulator's own sampling grid it is still the formula
     sub = [("xy_slm", 0.5), ("ising_all", 0.7)] if tier == "quick" else [(n, r) for n in PROGRAMS for r in (0.5, 0.31)]
-    return ks + [("ham", dict(program=n, rate=r)) for n, r in sub]
+    ks += [("ham", dict(program=n, rate=r)) for n, r in sub]
+    # the Hamiltonian after configuration changes / through the noiseless view (collapse operators do not enter H)
+    rec = [("perm", "spam_then_reset"), ("xy_plain", "spam_then_reset"), ("two_glob", "noiseless_view"), ("dmm", "dephasing"),
+           ("idle", "leakage_before"), ("digital", "leakage_before")]
+    if tier != "quick":
+        rec += [(n, r) for n in ("ising_all", "digital", "slm_ising", "xy_slm", "glob_then_local") for r in ("spam_then_reset", "noiseless_view", "dephasing")]
+    return ks + [("ham", dict(program=n, reconfig=r)) for n, r in rec]
 
 
 def harness(kernel, shape):
